@@ -75,6 +75,8 @@ def make_saliency(lead, N, kind):
         return np.ones(lead + (N,))
     if kind == 'graded':
         return A.graded_saliency(lead, N)
+    if kind == 'tiny':
+        return A.graded_saliency(lead, N) * 1e-13
     if kind == 'one_zero':
         s = A.graded_saliency(lead, N)
         s[..., N // 2] = 0.0
